@@ -5,6 +5,7 @@ CONSTANTS
   KnowsCookie = TRUE
   CheckReplies = {"Ok", "OkSimultaneous", "NotOk", "Alive"}
   Acc = TRUE
+  Reflection = TRUE
   CtlKinds <- AllCtlKinds
   PidClasses = {"adv", "unadv", "nonrem", "none", "r1"}
 CONSTRAINT Progress
